@@ -233,6 +233,7 @@ func call(sess erpc.Session, method string, arg, res interface{}, st ...erpc.Mes
 	if why := pxy.Await(cmd.Done(), watchdog); why != "" {
 		return protos.Triple{}, why
 	}
+	hold(cmd.Status())
 	return protos.StatusTriple(cmd.Status()), ""
 }
 
@@ -963,7 +964,7 @@ func steps() []stepDef {
 		{"heartbeat-manual", 2, stepHeartbeatCall},
 		{"heartbeat-bad-rate", 2, stepHeartbeatBadRate},
 		{"heartbeat-ping", 1, stepHeartbeatWait},
-	}, append(append(append(authIOSteps(), replyFaultSteps()...), bearerSteps()...), setupSteps()...)...)
+	}, append(append(append(append(authIOSteps(), replyFaultSteps()...), bearerSteps()...), setupSteps()...), replyReadSteps()...)...)
 }
 
 // ---------- monitors ----------
@@ -1119,6 +1120,10 @@ func probes() []probeDef {
 			_, st := w.caller.Dial(w.deadAddr, raw)
 			return probeObs{Triple: protos.StatusTriple(st)} // the cause names the OS error: code and msg only
 		}},
+		// a reply that is bound to its call and then cannot be read while its body codec is unknown
+		{"reply-unreadable-call", func(w *world) probeObs { return rrProbe("raw", "codec0-body") }},
+		{"reply-unreadable-http", func(w *world) probeObs { return rrProbe("http", "299-garbage-noctype") }},
+		{"reply-unreadable-struct", func(w *world) probeObs { return rrProbe("thrift-struct", "malformed-string") }},
 	}
 }
 
@@ -1134,6 +1139,7 @@ func probeKey(o probeObs) protos.Triple {
 var expectProbe = map[string]int32{
 	"closed-session-call": 102, "closed-session-push": 102, "pending-call-cut": 102, "unknown-route-call": 404, "bad-body-call": 400,
 	"mtype-unsupported": 102, "handler-panic-call": 500, "write-failed-call": 104, "presend-unprepared": 1, "pre-phase-misuse": 1, "dial-failed": 105,
+	"reply-unreadable-call": 400, "reply-unreadable-http": 400, "reply-unreadable-struct": 400,
 }
 
 type monitor struct {
@@ -1220,12 +1226,15 @@ func (m *monitor) restore() {
 // a probe is a failing operation itself, so the sentinels are compared again after each one (attributed to the probe).
 func (m *monitor) check(w *world, hid string, desc interface{}, stepClass string, stepIdx int, note string, history []string) {
 	m.sentinels(hid, desc, stepClass, stepIdx, note, history)
+	m.heldCheck(hid, desc, stepClass, stepIdx, history)
 	for _, pd := range m.pdefs {
+		curOp = "probe:" + pd.name
 		o := pd.fn(w)
 		core.Add("probe_evaluations", 1)
 		if o.Stuck != "" {
 			core.Add("probes_inconclusive", 1)
 			m.sentinels(hid, desc, "probe:"+pd.name, stepIdx, "", history)
+			m.heldCheck(hid, desc, "probe:"+pd.name, stepIdx, history)
 			continue
 		}
 		ref, ok := m.probe[pd.name]
@@ -1249,6 +1258,7 @@ func (m *monitor) check(w *world, hid string, desc interface{}, stepClass string
 			m.probe[pd.name], m.probeSeq[pd.name] = o, m.changeSeq
 		}
 		m.sentinels(hid, desc, "probe:"+pd.name, stepIdx, "", history)
+		m.heldCheck(hid, desc, "probe:"+pd.name, stepIdx, history)
 	}
 	m.restore()
 }
@@ -1348,12 +1358,13 @@ func main() {
 		for i, j := range idx {
 			d := defs[j]
 			t0 := time.Now()
+			curOp = d.class
 			res := d.fn(w)
 			tStep += time.Since(t0)
 			perClass[d.class] += time.Since(t0)
 			core.Add("evaluations", 1)
 			core.Add("steps/"+d.class, 1)
-			if os.Getenv("C15_DEBUG") == "2" && (strings.HasPrefix(d.class, "auth-re") || strings.HasPrefix(d.class, "reply-fault") || strings.HasPrefix(d.class, "bearer-") || strings.HasPrefix(d.class, "checker-") || strings.HasPrefix(d.class, "setup-")) {
+			if os.Getenv("C15_DEBUG") == "2" && (strings.HasPrefix(d.class, "auth-re") || strings.HasPrefix(d.class, "reply-fault") || strings.HasPrefix(d.class, "reply-read") || strings.HasPrefix(d.class, "bearer-") || strings.HasPrefix(d.class, "checker-") || strings.HasPrefix(d.class, "setup-")) {
 				fmt.Fprintf(os.Stderr, "note %s: %s\n", d.class, res.note)
 			}
 			if res.effective {
